@@ -27,7 +27,7 @@ RULE = ('seeded random hierarchies: 1..7 classes, 1..2 trees, single / multiple 
         'int Discriminator column, a stream of invalid definitions (bases from different trees) and of duplicate discriminator values; correspondence = one vm_compute boolean per '
         'observable (valid, all_bases, subclasses, root, criteria, code2cls entry, isinstance condition); search = create objects of every class, then reload in fresh sessions by '
         'select over every class, get by pk through every class of the tree, relationship navigation, isinstance queries (positive / negated, foreign-tree classes); '
-        'chains Link.h.ref through unloaded placeholders (class at first access), many-to-many collections typed as the root, references of unpickled objects, '
+        'queries over a class with a condition on an attribute declared by one of its subclasses, chains Link.h.ref through unloaded placeholders (class at first access), many-to-many collections typed as the root, references of unpickled objects, '
         'lookup by pk through every class after the object entered the identity map as an unloaded seed of a base-typed reference (falsy discriminator values 0 / \'\' on non-leaf classes included); '
         'non-trivial = hierarchies with at least one subclass (distinct specs counted)')
 
@@ -313,6 +313,7 @@ def check_hierarchy(spec, rng, n_isinst=8):
             except Exception as ex:
                 got = 'EXC ' + type(ex).__name__
             evals += 1
+            orm.rollback()              # the assignment is not kept: later routes compare stored values
             if got != created[(r, pk)]:
                 fail('navigate', 'assign-first', 'assigning through Holder[%r].ref%d: class %r, created as K%d' % (hpk, r, got, created[(r, pk)])); break
     # R5 the object is first met as an unloaded seed (a row referencing it through an attribute typed as one of its ancestors is loaded),
@@ -333,6 +334,17 @@ def check_hierarchy(spec, rng, n_isinst=8):
                             'C27 seed-lookup: with a K%d-typed reference to the object loaded first (seed=%s), K%d.get(pk=%r) gives class %r; the object was created as K%d, expected %r (hierarchy %s)'
                             % (c, was_seed, e, pk, got, k, want, json.dumps(spec)), {'spec': spec, 'route': 'seed-lookup'})
                 fails.append(f)
+    # R10 a query over e with a condition on an attribute declared by a subclass c of e (or by e)
+    for e, E in enumerate(classes):
+        for c, C in enumerate(classes):
+            if not issubclass(C, E): continue
+            want = sorted(pk for (r, pk), k in created.items() if issubclass(classes[k], C) and b.vals[(r, pk)] == 0)
+            with orm.db_session:
+                try: got = sorted(o.get_pk() for o in orm.select('x for x in K%d if x.v%d == 0' % (e, c), g)[:])
+                except Exception as ex: got = 'EXC %s: %s' % (type(ex).__name__, ex)
+            evals += 1
+            if got != want:
+                fail('subclass-attribute', 'own' if e == c else 'subclass', 'select(x for x in K%d if x.v%d == 0) returns pks %r; the stored K%d objects (and subclasses) with v%d == 0 are %r' % (e, c, got, c, c, want)); break
     # R7 chains through unloaded placeholders: Link row loaded, link.h is a placeholder, link.h.ref<c> is fetched inside Attribute.get
     for lpk, hpk in sorted(b.links.items()):
         c, r, pk = b.seed_holders[hpk]
@@ -456,11 +468,12 @@ def replay(ctx, data):
 
 
 LEVEL_TEXT = ('Machine-checked proof (Coq 8.16.1) over a model of Pony\'s entity inheritance: for every schema the metaclass accepts (any number of trees, multiple '
-              'inheritance with the diamond rule, no discriminator value used twice in a tree -- checked at definition time since fix d645930), _all_bases_ / _subclasses_ as computed '
-              'class by class are exactly the transitive closure of the direct-base relation and its inverse; every accepted schema has pairwise different discriminator values per tree; '
-              'the discriminator criteria of a query over e select exactly the rows created as e or a subclass; the SQL of isinstance(x, (c1..cn)) equals Python isinstance '
-              '(foreign-tree classes included); _parse_row_ and the identity-map refinement give back the creation class. The model is tied to the real metaclass and translator by '
-              'vm_compute correspondence on random hierarchies (accepted and rejected ones); reload routes and isinstance queries are searched end to end on SQLite against Python issubclass.')
+              'inheritance with the diamond rule, no discriminator value used twice in a tree), _all_bases_ / _subclasses_ as computed class by class are exactly the transitive closure of '
+              'the direct-base relation and its inverse; accepted schemas have pairwise different discriminator values per tree; the discriminator criteria of a query over e select exactly '
+              'the rows created as e or a subclass, also with conditions on attributes declared by subclasses; the SQL of isinstance(x, (c1..cn)) equals Python isinstance; _parse_row_, the '
+              'identity-map refinement, lookups by primary key through any class (loaded objects; unloaded seeds on one line of descent, any discriminator value incl. 0 / empty string) and '
+              'Attribute.get (also after attr.load through a placeholder; flag read from the source on every run) give back the creation class. Four deviations (two diamond seed cases, '
+              'many-to-many items, unpickled references) are refuted by witnesses and recorded as findings; two of them have proposed repairs.')
 LEVEL_NOTE = ('Trusted: Coq kernel + vm_compute; the hand-written model (no source translation) and its correspondence harness; SQL meaning of IN lists. Not covered by '
               'theorems: attribute/column sets of subclasses, composite keys, the NotImplementedError branch of class refinement (search only).')
 TECHNIQUE = 'Coq induction over definition order (structural recursion on the newest-first schema); vm_compute correspondence with the real EntityMeta and FuncIsinstanceMonad; end-to-end reload search on SQLite'
